@@ -32,6 +32,7 @@ class ConnPlan:
                 "wake_stream": "a table of 1 / 2 / 3 streams' wakers, an event naming one of them or a stream nobody waits on",
                 "stream_event": "one event (Readable / Writable / Finished / Stopped) naming stream 7; readable / writable / stopped each hold a waker for streams 7 and 9",
                 "conn_event": "one event (Opened / Available per direction, DatagramReceived, DatagramsUnblocked, HandshakeDataReady, Connected); every waker-holding field holding 0 / 1 / 2 wakers",
+                "close_event": "one ConnectionEvent::Close; every waker-holding field holding 0 / 1 / 2 wakers",
                 "poll functions": "1 call, before or after termination, both directions, quinn-proto answering nothing / something"}
 
     def validate(self, tier):
